@@ -48,7 +48,7 @@ def pass_records(dump):
         if ev == "input":
             cur = {"input": r["g"]}
             out.append(cur)
-        elif cur is not None and ev in ("after_mc", "after_mwb", "after_cx", "after_os"):
+        elif cur is not None and ev in ("after_mc", "after_mwb", "cx_done", "after_cx", "after_os"):
             cur[ev] = r
         elif cur is not None and ev == "checked":
             cur["checked"] = r["g"]
@@ -84,6 +84,12 @@ def passes_correspondence(accepted_and_rejected):
                 g_mc, ren_mc = densify(rec["after_mc"]["g"])
                 lines.append(json.dumps({"op": "mwb", "g": g_mc}))
                 meta.append(("mwb", o["name"], gi, rec, ren_mc))
+            if "after_mwb" in rec and "cx_done" in rec and all("inadj" in n for n in rec["after_mwb"]["g"]["nodes"]):
+                # `complex_borrow_check` vs Pxv.CG.complexCheck: the request lists the edges in the insertion order of
+                # each node's incoming adjacency list (hook affca2a), which is what the traversal of the real pass follows
+                g_cx0, ren_cx0 = densify(rec["after_mwb"]["g"], adjacency_order=True)
+                lines.append(json.dumps({"op": "cx", "g": g_cx0}))
+                meta.append(("cx", o["name"], gi, rec, ren_cx0))
             if "after_cx" in rec and "after_os" in rec:
                 # the forward pass `ordering_stalemates` (repo 437e3c1) vs Pxv.CG.resolveStalemates
                 g_cx, ren_cx = densify(rec["after_cx"]["g"])
@@ -91,7 +97,32 @@ def passes_correspondence(accepted_and_rejected):
                 meta.append(("os", o["name"], gi, rec, ren_cx))
     outs = [json.loads(x) for x in pxvlib.run_model("cg", lines)] if lines else []
     dis, n_clone_graphs, n_os, n_os_stalemates = [], 0, 0, 0
+    cx = {"evaluations": 0, "graphs_changed_by_the_pass": 0, "graphs_with_diagnostics": 0, "graphs_with_a_blocked_node": 0,
+          "parallel_edges_skipped": 0}
     for (op, name, gi, rec, ren), ln, mo in zip(meta, lines, outs):
+        if op == "cx":
+            req = json.loads(ln)
+            pairs = [(s, d) for s, d, k in req["g"]["edges"]]
+            if len(pairs) != len(set(pairs)):
+                # `find_edge` + `remove_edge` take ONE of several parallel edges: outside the model (never seen so far)
+                cx["parallel_edges_skipped"] += 1
+                continue
+            cx["evaluations"] += 1
+            real = rec["cx_done"]
+            real_edges = canon_edges(None, real["g"]["edges"], ren)
+            ident = {i: i for i in range(len(req["g"]["nodes"]))}
+            model_edges = canon_edges(None, mo["g"]["edges"], ident)
+            in_edges = canon_edges(None, req["g"]["edges"], ident)
+            cx["graphs_changed_by_the_pass"] += 1 if real_edges != in_edges else 0
+            cx["graphs_with_diagnostics"] += 1 if real["ndiag"] > 0 else 0
+            cx["graphs_with_a_blocked_node"] += 1 if (real_edges != in_edges or real["ndiag"] > 0 or len(mo.get("finished", [])) < len(req["g"]["nodes"])) else 0
+            # one diagnostic per contended input that has a component id, per call of emit_borrow_checking_error
+            model_n = sum(len(d.get("blocked", [])) for d in mo["diags"])
+            if real_edges != model_edges or mo.get("fuelOut") or (real["ndiag"] > 0) != (model_n > 0) or real["ndiag"] > model_n:
+                dis.append({"pass": op, "program": name, "graph": gi, "request": req,
+                            "real_edges": real_edges, "model_edges": model_edges, "out_of_fuel": mo.get("fuelOut"),
+                            "real_new_diagnostics": real["ndiag"], "model_diagnostics": mo["diags"]})
+            continue
         if op == "os":
             n_os += 1
             n_os_stalemates += 1 if mo.get("stalemate") else 0
@@ -121,17 +152,22 @@ def passes_correspondence(accepted_and_rejected):
                         "real_edges": real_edges, "model_edges": model_edges,
                         "real_new_diagnostics": real["ndiag"] - base, "model_diagnostics": mo["diags"]})
     return {"evaluations": len(lines), "graphs_with_clones": n_clone_graphs, "ordering_stalemates_evaluations": n_os,
-            "ordering_stalemates_found": n_os_stalemates, "disagreements": dis}
+            "ordering_stalemates_found": n_os_stalemates, "complex_borrow_check": cx, "disagreements": dis}
 
 
-def densify(g):
-    """Node ids in the dump are petgraph indices (may have gaps after removals): renumber 0..n-1."""
+def densify(g, adjacency_order=False):
+    """Node ids in the dump are petgraph indices (may have gaps after removals): renumber 0..n-1.
+    adjacency_order: list the edges per destination, oldest first (the reverse of the adjacency list `inadj`)."""
     ids = [n["i"] for n in g["nodes"]]
     ren = {old: new for new, old in enumerate(ids)}
     nodes = [{"kind": n["kind"], "copy": n["copy"], "ref": n["ref"], "cloneable": n["cloneable"],
               "tied": [ren[x] for x in n["tied"] if x in ren], "direct": [ren[x] for x in n["direct"] if x in ren],
               "label": n["label"]} for n in g["nodes"]]
     edges = [[ren[s], ren[d], k] for s, d, k in g["edges"]]
+    if adjacency_order:
+        edges2 = [[ren[s], ren[n["i"]], k] for n in g["nodes"] for s, k in reversed(n["inadj"])]
+        assert sorted(map(tuple, edges2)) == sorted(map(tuple, edges)), "inadj and the edge list disagree"
+        edges = edges2
     return {"nodes": nodes, "edges": edges}, ren
 
 
